@@ -12,14 +12,19 @@
       and the validator as long as the dictionary holds the same definitions;
     * `c12_later_definitions_harmless` — further definitions in the shared dictionary (pieces parsed
       before or after) never change the result of reading or skipping.
+    * `c12_piece_is_entry` — parsing a named-type definition (a piece, or the same definition met
+      inline) leaves the dictionary mapping its full name to exactly the parsed definition returned;
+      `c12_piece_then_name` — hence a later reference by that name is read, written and skipped exactly
+      like the definition itself;
   NOT proved: that `parse_schema` of the inlined schema and of the pieces fills the dictionary with
-  the same definitions (checked by the harness: same bytes / values / validation verdicts for raw,
+  the same definitions for the *other* names (checked by the harness: same bytes / values / validation verdicts for raw,
   parsed, twice-parsed and piecewise forms), and idempotence for unmarked parsed forms (harness).
   Known finding F4: canonical form and container header of a piecewise-parsed schema.
 -/
 import Model.Parse
 import Model.Validate
 import Proofs.EnvMono
+import Proofs.Piece
 
 open Parse Binary
 
@@ -89,6 +94,35 @@ theorem c12_later_definitions_harmless (env env' : Env) (hle : EnvMono.EnvLe env
     (∀ r, readData fuel env ro s bs = .ok r → readData fuel env' ro s bs = .ok r) ∧
     (∀ r, skipData fuel env s bs = .ok r → skipData fuel env' s bs = .ok r) :=
   ⟨EnvMono.readData_env env env' hle ro fuel s bs, EnvMono.skipData_env env env' hle fuel s bs⟩
+
+/-- **C12 (a piece is the dictionary's entry).** -/
+theorem c12_piece_is_entry (fuel : Nat) (kv : List (Val × Val)) (ns ty : String) (st st' : St) (dflt : Option Val)
+    (ign : Bool) (lt : Option LogT) (s : Schema)
+    (hty : dictType kv = .ok ty) (hl : parseLogical kv (ty == "fixed") = .ok lt)
+    (hnamed : ty = "enum" ∨ ty = "fixed" ∨ ty = "record")
+    (h : parse (fuel+1) (.dict kv) ns st dflt ign = .ok (s, st')) :
+    ∃ ns' full, schemaName kv ns = .ok (ns', full) ∧ st'.env.get? full = some s ∧ s.defName? = some full := by
+  rcases hnamed with rfl | rfl | rfl
+  · rw [RejectProofs.route_enum fuel kv ns st dflt ign lt hty hl] at h
+    exact PieceProofs.enum_entry kv ns st st' dflt ign s h
+  · rw [RejectProofs.route_fixed fuel kv ns st dflt ign lt hty hl] at h
+    exact PieceProofs.fixed_entry kv ns st st' dflt ign lt s h
+  · rw [RejectProofs.route_record fuel kv ns st dflt ign lt hty hl] at h
+    exact PieceProofs.record_entry _ kv ns st st' dflt ign s h
+
+/-- … so a reference to the piece by name behaves like the definition in the codec -/
+theorem c12_piece_then_name (fuel : Nat) (kv : List (Val × Val)) (ns ty : String) (st st' : St) (dflt : Option Val)
+    (ign : Bool) (lt : Option LogT) (s : Schema)
+    (hty : dictType kv = .ok ty) (hl : parseLogical kv (ty == "fixed") = .ok lt)
+    (hnamed : ty = "enum" ∨ ty = "fixed" ∨ ty = "record")
+    (h : parse (fuel+1) (.dict kv) ns st dflt ign = .ok (s, st')) :
+    ∃ full, ∀ (f : Nat) (ro : ROpts) (o : WOpts) (bs : Bytes) (v : Val),
+      readData (f+1) st'.env ro (.ref full) bs = readData f st'.env ro s bs ∧
+      writeData (f+1) st'.env o (.ref full) v = writeData f st'.env o s v ∧
+      skipData (f+1) st'.env (.ref full) bs = skipData f st'.env s bs := by
+  obtain ⟨_, full, _, hg, _⟩ := c12_piece_is_entry fuel kv ns ty st st' dflt ign lt s hty hl hnamed h
+  exact ⟨full, fun f ro o bs v => ⟨c12_name_is_definition_read f _ ro full s bs hg,
+    c12_name_is_definition_write f _ o full s v hg, c12_name_is_definition_skip f _ full s bs hg⟩⟩
 
 /-! non-vacuity -/
 example : EnvDistinct [("a.R", .record "a.R" [] []), ("E", .enum "E" ["A"] none [])] := by
